@@ -76,6 +76,7 @@ type pmmvGenOpts struct {
 	MaxFrames     int  // upper bound of the "few thousand frames" size class
 	ForceBoundary bool // every available region gets a word-boundary frame count
 	Huge          bool // one region with 2^20..2^31 frames (sizing arithmetic only)
+	Big           bool // one available region with 33000..100000 frames: bookkeeping memory of >= 2 pages
 }
 
 var pmmvBoundaryCounts = []int{1, 2, 63, 64, 65, 127, 128, 129, 191, 192, 193}
@@ -122,9 +123,11 @@ func pmmvTryGen(r *vlib.Rand, o pmmvGenOpts) *pmmvConfig {
 		cursor = (r.U64() % (1 << uint(30+r.Intn(21)))) &^ (pmmvPage - 1)
 	}
 	bigLeft := 1 + r.Intn(2)
-	hugeAt := -1
+	hugeAt, bigAt := -1, -1
 	if o.Huge {
 		hugeAt = r.Intn(n)
+	} else if o.Big {
+		bigAt = r.Intn(n)
 	}
 	for i := 0; i < n; i++ {
 		var gap uint64
@@ -187,6 +190,10 @@ func pmmvTryGen(r *vlib.Rand, o pmmvGenOpts) *pmmvConfig {
 		}
 		if cfg.Style == "tiny" {
 			frames = 0
+		}
+		if i == bigAt {
+			typ = 1
+			frames = uint64(r.Range(33000, 100000))
 		}
 		if i == hugeAt {
 			typ = 1
